@@ -195,9 +195,6 @@ func (d *driver) stop() string {
 	if err != nil {
 		return err.Error()
 	}
-	if os.Getenv("VERIF_C24_DEBUG") != "" {
-		fmt.Printf("debug: driver user=%v sys=%v\n", d.cmd.ProcessState.UserTime(), d.cmd.ProcessState.SystemTime())
-	}
 	return ""
 }
 
@@ -296,6 +293,20 @@ func (m *monitor) count(name string, n int) {
 	m.mu.Unlock()
 }
 
+// trySample keeps one real case per kind in the evidence samples.
+func (m *monitor) trySample(kind string, v map[string]interface{}) {
+	m.mu.Lock()
+	seen := m.cnt["sampled:"+kind] > 0
+	if !seen {
+		m.cnt["sampled:"+kind] = 1
+	}
+	m.mu.Unlock()
+	if !seen {
+		v["kind"] = kind
+		m.c.Sample(v)
+	}
+}
+
 // newCase returns the index of the next case (a case may issue several queries).
 func (m *monitor) newCase() int {
 	m.nextIdx++
@@ -332,7 +343,9 @@ func (m *monitor) finish() {
 	close(m.work)
 	m.wg.Wait()
 	for k, v := range m.cnt {
-		m.c.Count(k, v)
+		if !strings.HasPrefix(k, "sampled:") {
+			m.c.Count(k, v)
+		}
 	}
 }
 
@@ -606,7 +619,7 @@ func (m *monitor) nameQuery(s string, idx int, stream string) {
 	q := query{op: 'N', nf: 1, want: want, mask: 0x1f, clause: "names", idx: idx}
 	q.f[0] = s
 	long := stream != "exhaustive"
-	if long {
+	if !strings.HasPrefix(stream, "exhaustive") {
 		q.info = map[string]interface{}{"stream": stream}
 	}
 	q.postAcc = func(r byte) {
@@ -619,6 +632,13 @@ func (m *monitor) nameQuery(s string, idx int, stream string) {
 		}
 		if cok || r&16 != 0 {
 			m.count("component_names_accepted_by_some_validator", 1)
+		}
+		if stream == "mutation" && (r&0x1f == 0x1f&^0x15 || r&0x1f == 0) {
+			// one accepted instance name (with key) and one string everybody rejects
+			m.trySample(fmt.Sprintf("name:%s", yn(r&2 != 0)), map[string]interface{}{"string": printable(s),
+				"daemon":         map[string]string{"ValidateSnap": yn(a), "ValidateInstance": yn(b), "ComponentRef.Validate": yn(cok)},
+				"snap-confine":   map[string]string{"sc_snap_name_validate": yn(r&1 != 0), "sc_instance_name_validate": yn(r&2 != 0), "sc_snap_component_validate": yn(r&16 != 0)},
+				"snap-update-ns": map[string]string{"validate_snap_name": yn(r&4 != 0), "validate_instance_name": yn(r&8 != 0)}})
 		}
 		if !acc {
 			return
@@ -644,7 +664,8 @@ func inAlphabet(s string) bool {
 }
 
 func exhaustiveLen() int { return kit.Scale(5, 7) }
-func tagSlotLen() int    { return kit.Scale(3, 5) }
+func tagSlotLen() int    { return kit.Scale(3, 4) }
+func compSlotLen() int   { return kit.Scale(5, 6) }
 
 // componentWithInstance: snap-confine is given the instance name too; with the
 // instance of the very snap named in the component the verdict must be the
@@ -779,6 +800,14 @@ func (m *monitor) tagQueries(tag, hintInst, hintComp string, p *tagPools, idx in
 			q.postAcc = func(r byte) {
 				if r&1 != 0 {
 					m.count("tag_queries_accepted_by_confine", 1)
+				}
+				if stream == "mutation" {
+					var comp interface{}
+					if cnc != "" {
+						comp = cnc
+					}
+					m.trySample("tag:"+yn(r&1 != 0), map[string]interface{}{"security_tag": printable(tagc), "snap_instance": inc, "component_name": comp,
+						"daemon_parses_as": map[string]interface{}{"ok": ok, "instance": pi, "component": pc}, "sc_security_tag_validate": yn(r&1 != 0)})
 				}
 				if (r|want)&1 != 0 {
 					m.c.Nontrivial(kit.Sig("tag", tagc, inc, cnc))
@@ -917,7 +946,7 @@ func mutate(r *rand.Rand, base string) string {
 func TestVerifC24(t *testing.T) {
 	c := kit.New("C24", "exploration")
 	defer c.Done(t)
-	c.Rule(fmt.Sprintf("inputs: (1) every byte string of length <= %d over the covering alphabet %q (one representative per character class any validator distinguishes; sharded by enumeration index) given to all five single-string validators and, as app and hook name, to snap.ValidateApp/ValidateHook; (2) every string of length <= %d over the same alphabet substituted into each of %d slots of security-tag templates (instance, key, component, app, hook, the literals, separators, prefix, suffix); (3) names/keys/components/tags of boundary lengths (39/40/41, 10/11, 50..53, 255/256/257, 1000, 5000) built from valid and almost-valid patterns; (4) seeded random mutations (1-3 edits over a wider alphabet) of valid names, instances, components and tags; (5) snap.yaml documents with generated app, hook, component names. Strings containing NUL are never sent (a C string cannot carry one). non-trivial = a distinct input that at least one of the compared implementations ACCEPTS (names, components), a distinct (tag, instance, component) triple accepted by snap-confine or parsed-as-such by the daemon, or a distinct (instance, component, app/hook name) accepted by snap.ValidateApp/ValidateHook; inputs that every implementation rejects are evaluated and compared but not counted. Enumerated inputs are distinct by construction.", exhaustiveLen(), alphabet, tagSlotLen(), numTemplates))
+	c.Rule(fmt.Sprintf("inputs: (1) every byte string of length <= %d over the covering alphabet %q (one representative per character class any validator distinguishes; sharded by enumeration index) given to all five single-string validators and, as app and hook name, to snap.ValidateApp/ValidateHook, and (length <= %d) placed in the snap and in the component slot of a <snap>+<comp> name; (2) every string of length <= %d over the same alphabet substituted into each of %d slots of security-tag templates (instance, key, component, app, hook, the literals, separators, prefix, suffix); (3) names/keys/components/tags of boundary lengths (39/40/41, 10/11, 50..53, 255/256/257, 1000, 5000) built from valid and almost-valid patterns; (4) seeded random mutations (1-3 edits over a wider alphabet) of valid names, instances, components and tags; (5) snap.yaml documents with generated app, hook, component names. Strings containing NUL are never sent (a C string cannot carry one). non-trivial = a distinct input that at least one of the compared implementations ACCEPTS (names, components), a distinct (tag, instance, component) triple accepted by snap-confine or parsed-as-such by the daemon, or a distinct (instance, component, app/hook name) accepted by snap.ValidateApp/ValidateHook; inputs that every implementation rejects are evaluated and compared but not counted. Enumerated inputs are distinct by construction.", exhaustiveLen(), alphabet, compSlotLen(), tagSlotLen(), numTemplates))
 	c.Assume("the process locale of snap-confine/snap-update-ns is the C locale (neither calls setlocale), so islower/isdigit/regexec are byte-wise; the driver runs with LC_ALL=C and never calls setlocale")
 	c.Assume("snap-confine's tag length limit is 256 bytes (SNAP_SECURITY_TAG_MAX_LEN); tags longer than that are sent for the sanitizers but not compared")
 	c.Assume("for the tag clause the given instance/component range over names that naming.ValidateInstance/ValidateSnap accept (three-way agreement of those is judged separately on the same strings)")
@@ -976,6 +1005,12 @@ func TestVerifC24(t *testing.T) {
 	total := enumerate(exhaustiveLen(), shard, nshard, func(s string) {
 		idx := m.newCase()
 		m.nameQuery(s, idx, "exhaustive")
+		// the same string in the component slot and in the snap slot of a
+		// "<snap>+<comp>" component name (exhaustive-long: counted by signature)
+		if len(s) <= compSlotLen() {
+			m.nameQuery("foo+"+s, idx, "exhaustive-component-slot")
+			m.nameQuery(s+"+cc", idx, "exhaustive-component-slot")
+		}
 		// the same string as app / hook name of a snap the daemon accepts
 		m.appHook(s, pools, idx, "exhaustive")
 		if len(s) <= 3 && utf8.ValidString(s) {
@@ -984,6 +1019,7 @@ func TestVerifC24(t *testing.T) {
 	})
 	c.Count("exhaustive_strings", int(total))
 	c.Max("max_exhaustive_len", exhaustiveLen())
+	c.Max("max_component_slot_len", compSlotLen())
 
 	// ---- (2) exhaustive slot substitution in tag templates -----------------
 	enumerate(tagSlotLen(), shard, nshard, func(s string) {
@@ -1081,7 +1117,7 @@ func TestVerifC24(t *testing.T) {
 
 	// ---- (4) random mutations of valid strings -----------------------------
 	rnd := kit.NewRand("c24-mutations")
-	nmut := kit.Scale(30000, 100000)
+	nmut := kit.Scale(24000, 40000)
 	apps := []string{"app", "A", "a-b", "0", "Foo-Bar-9", "hook", "snap"}
 	hooks := []string{"configure", "install", "pre-refresh", "connect-plug-x11", "h", "a-0"}
 	for it := 0; it < nmut; it++ {
@@ -1112,10 +1148,6 @@ func TestVerifC24(t *testing.T) {
 				tag = mutate(rnd, tag)
 			}
 			m.tagQueries(tag, in, hc, pools, idx, "mutation")
-			if it < 3 {
-				ok, pi, pc := goTag(tag)
-				c.Sample(map[string]interface{}{"stream": "mutation", "tag": printable(tag), "daemon_parses": ok, "instance": pi, "component": pc})
-			}
 		}
 	}
 
@@ -1143,9 +1175,9 @@ func TestVerifC24(t *testing.T) {
 	c.Floor("yaml_component_hooks_accepted", 20)
 	c.Floor("component_yaml_accepted", 20)
 	c.Floor("component_yaml_rejected", 20)
-	c.Sample(map[string]interface{}{"stream": "exhaustive", "alphabet": printable(string(alphabet)), "max_len": exhaustiveLen(), "strings_this_shard": total,
+	c.Note("exhaustive", map[string]interface{}{"alphabet": printable(string(alphabet)), "max_len": exhaustiveLen(), "max_tag_slot_len": tagSlotLen(), "tag_templates": numTemplates,
+		"example_templates":   []string{"snap.<s>.app", "snap.foo.hook.<s>", "snap.foo+<s>.hook.install", "snap.foo.app<s>", "<s>snap.foo.app"},
 		"valid_instance_pool": len(pools.insts), "valid_component_pool": len(pools.comps)})
-	c.Sample(map[string]interface{}{"stream": "exhaustive-slots", "example_templates": []string{"snap.<s>.app", "snap.foo.hook.<s>", "snap.foo+<s>.hook.install", "snap.foo.app<s>", "<s>snap.foo.app"}, "max_slot_len": tagSlotLen()})
 }
 
 // ---------------------------------------------------------------------------
